@@ -152,6 +152,33 @@ int main(int argc, char** argv) {
             std::printf("F13: DEFECT after update(P, c, reuse=false) the solver needs %d (sparse) / %d (dense) iterations, a fresh solver with the same scaling %d / %d: stale KKT caches (A'A, G copies) are factorised\n", it_upd[0], it_upd[1], it_fresh[0], it_fresh[1]);
         else std::printf("F13: ok\n");
     }
+    if (which == "F16" || which == "all") {
+        // rows of G whose h is infinite are zeroed when h is passed; afterwards
+        //  (a) update(G) alone re-activates the row with the placeholder h = 1 (a constraint the user never posed)
+        //  (b) update(h finite) alone leaves the row zero (the constraint the user now poses is ignored)
+        M G2(2, 3); G2 << 1, 0, 0, 0, 1, 2;
+        V hinf(2); hinf << INF, 3;
+        V cc(3); cc << -10, -2, 0.5;    // pushes x0 up: x0 <= 1 would be active if the row were (wrongly) enabled with h = 1
+        {
+            DenseSolver<double> a, f;
+            a.setup(q.P, cc, nullopt, nullopt, G2, hinf); a.solve();
+            M G3 = G2; G3(0, 0) = 2;     // new values, same shape; h[0] is still +inf
+            a.update(nullopt, nullopt, nullopt, nullopt, G3); a.solve();
+            f.setup(q.P, cc, nullopt, nullopt, G3, hinf); f.solve();
+            double d = (a.result().x - f.result().x).cwiseAbs().maxCoeff();
+            if (d > 1e-6) std::printf("F16a: DEFECT update(G) while h[0] = +inf activates row 0 with h = 1: x0 = %.6f, fresh solver on the same data x0 = %.6f\n", a.result().x(0), f.result().x(0));
+            else std::printf("F16a: ok\n");
+        }
+        {
+            DenseSolver<double> a, f;
+            a.setup(q.P, cc, nullopt, nullopt, G2, hinf); a.solve();
+            V hfin(2); hfin << 0.5, 3;   // row 0 now means x0 <= 0.5
+            a.update(nullopt, nullopt, nullopt, nullopt, nullopt, hfin); a.solve();
+            f.setup(q.P, cc, nullopt, nullopt, G2, hfin); f.solve();
+            if (a.result().x(0) > 0.5 + 1e-6) std::printf("F16b: DEFECT update(h finite again) leaves row 0 of G zeroed: x0 = %.6f violates x0 <= 0.5 (fresh solver: %.6f), status %d\n", a.result().x(0), f.result().x(0), (int) a.result().info.status);
+            else std::printf("F16b: ok\n");
+        }
+    }
     if (which == "F9") {
         // sparse: update(A') with the same nnz but a different pattern is accepted; run under ASan
         SparseSolver<double, int> a;
